@@ -5,7 +5,12 @@
          (every request of a bounded domain); the real qmail-clean under the shim (every unlink path and
          every status byte recorded), requests separated by a sentinel request so that every event is
          attributed to exactly one request; records judged by TLC (spec/CleanRec.tla)
- part 2 (spawner) and part 3 (queue manager report channels): see run_spawner / run_reports below
+ part 2 (spawner): the real qmail-lspawn / qmail-rspawn with scripted stand-ins, command streams judged by spec/SpawnRec.tla
+ part 3 (queue manager report channels): histories on the real qmail-send under the gate in which hostile byte streams arrive
+         on the report channels while deliveries are in flight (numbers out of range / unused / of the other channel, letters
+         that are not K Z D, reports far beyond the size limit, frames split over writes, NUL runs, bursts, random bytes); the
+         stream is cut into frames by lib/repframe.py (lexing only) and spec/QSendMon.tla judges what follows: no recipient
+         marked, bounced, dropped or left waiting without an honest report, no crash, truncated text in the notice
 """
 import sys, os, json, argparse, re, subprocess
 sys.path.insert(0, os.path.join(os.path.dirname(os.path.abspath(__file__)), "..", "lib"))
@@ -196,6 +201,40 @@ def run_spawner(ck, tree, thorough):
     return recs
 
 
+HOSTILE_KINDS = ["range", "unused", "wrongchan", "mangled", "oversized", "oversizedjunk", "split", "nuls", "burst", "random"]
+
+
+def report_histories(rng, thorough):
+    """messages with recipients on both channels; while deliveries are in flight, hostile byte streams arrive on the report
+    channels; afterwards everything still in flight is answered honestly and the queue is drained"""
+    hs = []
+    reps = 25 if thorough else 1
+    idx = 0
+    for rep in range(reps):
+        for kind in HOSTILE_KINDS + ["mix", "mix", "mix"]:
+            idx += 1
+            nmsg = rng.choice([1, 2])
+            messages, outcomes = [], {}
+            for m in range(nmsg):
+                rc = []
+                for k in range(rng.choice([2, 3, 4])):
+                    a = "h%dm%dr%d@%s" % (idx, m, k, rng.choice(["local.test", "remote.test"]))
+                    rc.append(a.encode())
+                    outcomes[a] = rng.choice(["K", "D", "ZK", "ZD", "K", "D"])
+                messages.append({"body": b"Subject: h%d\n\nbody\n" % idx, "sender": b"hs%d@origin.test" % idx, "rcpts": rc})
+            outcomes["hs%d@origin.test" % idx] = "K"
+            script = [("inject", m) for m in range(nmsg)]
+            kinds = [kind] * rng.choice([1, 2, 3]) if kind != "mix" else [rng.choice(HOSTILE_KINDS) for _ in range(rng.randint(3, 6))]
+            for k in kinds:
+                script.append(("hostile", k))
+                if rng.random() < 0.3:
+                    script.append(("answer", rng.choice(["fifo", "lifo", "random"])))
+            script += [("answer", "fifo"), ("nextdue", 0), ("hostile", rng.choice(HOSTILE_KINDS)), ("answer", "fifo"), ("nextdue", 0), ("answer", "fifo")]
+            hs.append({"id": "rep-%s-%d" % (kind, idx), "seed": rng.randrange(1 << 30), "messages": messages, "outcomes": outcomes, "script": script,
+                       "strict": 1, "conc": rng.choice([(10, 20), (3, 3), (2, 5)]), "announce": (120, 120), "hostile": 1, "drain_rounds": 60})
+    return hs
+
+
 def main():
     ap = argparse.ArgumentParser()
     ap.add_argument("--tier", default=os.environ.get("VERIF_TIER", "quick"))
@@ -268,6 +307,29 @@ def main():
             why = why.strip('"')
             ck.violation("spawn:%s" % why, "command stream of %d commands: reports %s opens %s ran %s" % (
                 len(r["cmds"]), r["reports"][:10], [bytes(o).decode("latin1") for o in r["opens"]][:10], r["ran"][:10]), r)
+
+    # ---- part 3: arbitrary bytes on the queue manager's report channels
+    if not a.replay or "history" in json.load(open(a.replay))["case"]:
+        import histories, qsengine
+        if a.replay:
+            hs = [qsengine.history_from_replay(json.load(open(a.replay))["case"]["history"])]
+        else:
+            hs = report_histories(ck.rng, thorough)
+        runs = qsengine.run_histories(ck, tree, hs)
+        tbad, tres = qsengine.judge(ck, runs)
+        ck.add_tlc("QSendTrace(report channels)", tres)
+        ck.cov["traces_validated_against_impl"] += len(runs)
+        ck.cov["report_channel_histories"] = len(runs)
+        ck.cov["hostile_frames"] = sum(1 for r in runs for e in r["ev"] if e["op"] == "report")
+        for r in runs:
+            ck.count(("hist", r["h"]["id"]), nontrivial=True)
+        ck.sample({"history": runs[0]["h"]["id"], "script": [list(x) for x in runs[0]["h"]["script"]][:12],
+                   "reports": [(e["c"], e["d"], e["k"], e["extra"]) for e in runs[0]["ev"] if e["op"] == "report"][:12]})
+        # in these histories the only unusual input is what arrives on the report channels: every objection about the state of a
+        # recipient or a bounce, a crash of the daemon, and mail that never leaves the queue although every delivery was answered
+        # honestly afterwards, or is not retried when due, is a violation of this property (no TERM and no channel on hold occur
+        # in these histories, so the known findings of C15/C16 cannot)
+        qsengine.report(ck, "C18", runs, tbad, accept=("C18", "C03", "C04", "C14", "C02", "C15", "C16"))
 
     ck.cov["rule"] = ("cleaner: %d requests = 16 heads x every tail over {1,2,0,/,.,x,0x80} up to length %d, all short strings, boundary lengths, "
                       "numbers around 2^31/2^32/2^63/2^64, seeded random; each followed by a sentinel request so that every unlink and status byte "
